@@ -525,3 +525,65 @@ def c14_g(ctx):
         ctx.check(ok, ap, 'parents attached in the order given', 'for parent in parents: add_edge',
                   'the parents are not attached one by one in the order given', fn=ap,
                   node=ed[0] if ed else ap.node)
+
+
+@obligation('C14-h', 'T7 T8', 'become() transfers every incoming edge of the replacement together '
+            'with its edge data', floor=2,
+            necessary='edges rebuilt from the positional parent list lose the parents passed by '
+                      'name (and any other edge data): the operation silently runs with its '
+                      'defaults')
+def c14_h(ctx):
+    gm = ctx.cls(GM)
+    un = ctx.own_method(gm, 'update_node')
+    ex = ctx.ex(un)
+    upd, node = ('param', un.params[2]), ('param', un.params[1])
+    loops = [l for l in own_nodes(un.node) if isinstance(l, ast.For)]
+    ok = False
+    site = None
+    for l in loops:
+        it = ex.term(l.iter)
+        m = match(it, pattern('self.source_net.in_edges(_u, data=True)'))
+        if m is None or m['u'] != upd:
+            continue
+        for c in ast.walk(l):
+            if isinstance(c, ast.Call) and isinstance(c.func, ast.Attribute) and \
+                    c.func.attr == 'add_edge':
+                a = [ex.term(x) for x in c.args]
+                starkw = [k for k in c.keywords if k.arg is None]
+                # add_edge(u, node, **data) with (u, v, data) the loop's triple
+                if len(a) == 2 and a[1] == node and a[0][0] == 'item' and a[0][2] == 0 and \
+                        starkw and ex.term(starkw[0].value)[0] == 'item' and \
+                        ex.term(starkw[0].value)[2] == 2 and \
+                        ex.term(starkw[0].value)[1] == a[0][1]:
+                    ok = True
+                    site = c
+    also = [c for c in ctx.calls(un, name='add_edges_from')
+            if contains(ex.term(c.args[0]), 'self.source_net.in_edges(_, data=True)')]
+    ctx.check(ok or bool(also), un, 'incoming edges copied with their data',
+              'for u, v, data in in_edges(updating_node, data=True): add_edge(u, node, **data)',
+              'the edges into the replaced node are not copied from the replacement\'s incoming '
+              'edges with their data (named parents and indices can be lost)', fn=un,
+              node=site or un.node)
+    # outgoing edges of the replaced node are kept with their data
+    oe = [s for s in own_nodes(un.node) if isinstance(s, ast.Assign) and
+          match(ex.term(s.value), pattern('list(self.source_net.edges(_n, data=True))')) is not None
+          and match(ex.term(s.value), pattern('list(self.source_net.edges(_n, data=True))'))['n']
+          == node]
+    back = [c for c in ctx.calls(un, name='add_edges_from')]
+    rm = [c for c in ctx.calls(un, 'self.remove_node(_)') if ex.term(c.args[0]) == node]
+    ok2 = bool(oe) and bool(back) and bool(rm) and \
+        ctx.must_precede(un, oe, ctx_stmt14(rm[0])) and \
+        any(ex.term(c.args[0]) == ex.term(oe[0].value) or
+            (isinstance(c.args[0], ast.Name) and c.args[0].id == oe[0].targets[0].id)
+            for c in back)
+    ctx.check(ok2, un, 'children kept: outgoing edges saved before removal and restored',
+              'out_edges = list(edges(node, data=True)); remove_node(node); add_edges_from(..)',
+              'the outgoing edges of the replaced node are not saved (with data) before it is '
+              'removed and restored afterwards', fn=un, node=oe[0] if oe else un.node)
+
+
+def ctx_stmt14(node):
+    n = node
+    while n is not None and not isinstance(n, ast.stmt):
+        n = getattr(n, '_parent', None)
+    return n
